@@ -189,7 +189,10 @@ def run_bigintent(concepts, case, spec):
         it1 = call(big.attributes)
         if it1 is RAISED:
             return
-        for _ in range(70000):                  # suspend the big enumeration far in
+        with core.monitor_code():
+            e, i = sh.omask(big.extent), sh.pmask(big.intent)
+            total = len(generators(sh, e, i))
+        for _ in range(int(total * .8)):        # suspend the big enumeration far in (most subsets visited)
             if next(it1, None) is None:
                 break
         for c in others:                        # other enumerations on the same context meanwhile
